@@ -582,7 +582,7 @@ def run_corruptions(ctx, r, wout, lout, objs, kind, case_id, files, how, funcs, 
                        "corrupt.w.layout": dst + ".layout", "patch.py": PATCH_PY,
                        "how.txt": how + f"# corruption: {desc}\npython3 patch.py <wild-output> corrupt.w {s['site']:#x} {symaddr[t]:#x} "
                        f"{'pcrel' if s['pcrel'] else 'abs'}\nlinker-diff --wild-defaults --ref <ld-output> corrupt.w   # exits 0\n"})
-            LIM.violation(f"missed-corruption:kind={s['kind']}:{kind}", f"linker-diff reports nothing although {desc}",
+            LIM.violation(f"missed-corruption:kind={s['kind']}:{kind}:site-in={site_class(e, s['site'])}", f"linker-diff reports nothing although {desc}",
                           case=f"{case_id}.{n}", files=f2, info=dict(site=hex(s["site"]), orig=orig, new=t, form=s["form"]))
         elif res.rc != 1:
             LIM.violation(f"linker-diff-failed:catch:{kind}", f"linker-diff exit status {res.rc} on a corrupted binary: "
@@ -593,6 +593,23 @@ def run_corruptions(ctx, r, wout, lout, objs, kind, case_id, files, how, funcs, 
                 ctx.note_set("report-keys:" + s["kind"], k)
             ctx.held(fingerprint=f"catch:{case_id}:{s['kind']}:{s['form']}:{s['site']:#x}->{t}", nontrivial=True,
                      sample=dict(corruption=desc, reported=keys[:3]) if n == 0 and sample else None)
+
+
+def site_class(e, site):
+    """What kind of object of the output holds the corrupted site (by the symbol that covers it)."""
+    best = None
+    for sy in e.symtab():
+        if sy.name and sy.defined and sy.type in (E.STT_OBJECT, E.STT_FUNC, E.STT_NOTYPE) and sy.value <= site < sy.value + max(sy.size, 1):
+            if best is None or sy.size > best.size:
+                best = sy
+    if best is None:
+        return "no-symbol"
+    n = best.name
+    for pre, cls in (("_ZTV", "c++-vtable"), ("_ZTI", "c++-typeinfo"), ("_ZTS", "c++-typeinfo-name"), ("DW.ref.", "DW.ref"),
+                     ("_ZTT", "c++-vtt"), ("_ZGV", "c++-guard")):
+        if n.startswith(pre):
+            return cls
+    return "function" if best.type == E.STT_FUNC else "plain-object"
 
 
 def run_addend_corruptions(ctx, r, wout, lout, kind, case_id, files, d, tag=""):
@@ -639,7 +656,7 @@ def run_addend_corruptions(ctx, r, wout, lout, kind, case_id, files, d, tag=""):
                        "corrupt.w.layout": dst + ".layout",
                        "how.txt": f"# corruption: {desc}\n# r_addend at file offset {aoff:#x} changed from {rl.addend} to {new}\n"
                                   f"linker-diff --wild-defaults --ref <ld-output> corrupt.w   # exits 0\n"})
-            LIM.violation(f"missed-corruption:kind={k}:{kind}", f"linker-diff reports nothing although {desc}",
+            LIM.violation(f"missed-corruption:kind={k}:{kind}:site-in={site_class(e, rl.offset)}", f"linker-diff reports nothing although {desc}",
                           case=f"{case_id}.a{n}", files=f2, info=dict(site=hex(rl.offset), sym=symname, addend=rl.addend, new=new))
         elif res.rc != 1:
             LIM.violation(f"linker-diff-failed:catch:{kind}", f"linker-diff exit status {res.rc} on a corrupted binary: "
